@@ -92,7 +92,9 @@ fn feeds_limited_bom(t: &Trace, limit: usize, bom_ignored: bool) -> Vec<Vec<u8>>
     out
 }
 
-/// events recorded by a leaf-mode listener behind the real front end of the trace
+/// events recorded by a leaf-mode listener behind the real front end of the trace. For the
+/// character front end the trace's Charset steps (set_use_utf8 between chunks) are replayed at
+/// their positions; `feeds` holds one (possibly truncated) entry per Feed step.
 fn real_events(t: &Trace, feeds: &[Vec<u8>]) -> Vec<Op> {
     let tap = Arc::new(Mutex::new(LeafTap::new()));
     match t.front {
@@ -101,8 +103,29 @@ fn real_events(t: &Trace, feeds: &[Vec<u8>]) -> Vec<Op> {
             if !t.utf8 {
                 p.set_use_utf8(false);
             }
-            for f in feeds {
-                p.feed(String::from_utf8_lossy(f).into_owned());
+            let mut fi = 0;
+            let mut exhausted = false;
+            for st in &t.steps {
+                match st {
+                    Step::Feed(orig) => {
+                        if let Some(f) = feeds.get(fi) {
+                            p.feed(String::from_utf8_lossy(f).into_owned());
+                            if f.len() < orig.len() {
+                                exhausted = true; // comparison stops inside this chunk
+                            }
+                        }
+                        fi += 1;
+                    }
+                    Step::Charset(c) if !exhausted => match c.as_str() {
+                        "@" => p.set_use_utf8(false),
+                        "G" | "8" => p.set_use_utf8(true),
+                        _ => {}
+                    },
+                    _ => {}
+                }
+                if exhausted {
+                    break;
+                }
             }
         }
         Front::Bytes => {
@@ -189,20 +212,62 @@ impl Property for C03 {
         p.switch_pct = 0;
         p.eightbit_pct = 35;
         p.max_len = 300;
-        to_char_trace("C03", seed, index, &mut r, &p)
+        let mut t = to_char_trace("C03", seed, index, &mut r, &p);
+        // set_use_utf8 between chunks (character front end only: the characters themselves do
+        // not depend on the mode there, only what the recogniser does with SO/SI and designators)
+        if t.front == Front::Chars && r.chance(1, 8) {
+            let n = t.steps.len();
+            let k = r.range(1, 3);
+            for _ in 0..k {
+                let pos = r.below(n as u64 + 1) as usize;
+                t.steps.insert(pos.min(t.steps.len()), Step::Charset(r.pick(&["@", "G", "8"]).to_string()));
+            }
+        }
+        t
     }
     fn check(&self, trace: &Trace, cov: &mut Coverage) -> Result<(), Violation> {
         let all = delivered_chars(trace);
         let mut rf = Recog::new(trace.utf8);
-        rf.feed_str(&all);
+        let mut switch_stop: Option<usize> = None;
+        let mut fed = 0usize;
+        for st in &trace.steps {
+            match st {
+                Step::Feed(b) => {
+                    let text = if trace.front == Front::Bytes && trace.utf8 { String::new() } else { chunk_chars(trace, b) };
+                    fed += text.chars().count();
+                    rf.feed_str(&text);
+                }
+                Step::Charset(c) if trace.front == Front::Chars => {
+                    if rf.st != crate::spec::recog::St::Ground {
+                        // which mode governs a sequence that straddles a switch is unspecified
+                        switch_stop = Some(fed);
+                        cov.hit("stop_mode_switch_inside_a_sequence");
+                        break;
+                    }
+                    match c.as_str() {
+                        "@" => rf.utf8 = false,
+                        "G" | "8" => rf.utf8 = true,
+                        _ => {}
+                    }
+                    cov.hit("mode_switches_between_chunks");
+                }
+                _ => {}
+            }
+            if rf.stopped_at.is_some() {
+                break;
+            }
+        }
+        if trace.front == Front::Bytes && trace.utf8 {
+            rf.feed_str(&all);
+        }
         for (st, cl) in &rf.transitions {
             cov.set_insert("c03_transitions", (*st as u64) * 64 + *cl as u64);
         }
-        let limit = rf.stopped_at.unwrap_or(usize::MAX);
+        let limit = rf.stopped_at.or(switch_stop).unwrap_or(usize::MAX);
         if rf.stopped_at.is_some() {
             cov.hit("stop_unspecified_grammar");
             cov.hit(&format!("stop_reason: {}", rf.stop_reason));
-        } else {
+        } else if switch_stop.is_none() {
             cov.hit("runs_compared_to_the_end");
         }
         let feeds = feeds_limited(trace, limit);
